@@ -91,6 +91,7 @@ struct StCase {
         int cfg = 0;
         int via_auto = 0;      // 1: init_mb_mgr_auto under a CPUID mask that makes cfg's arch the best one
         int parked = 0;        // jobs parked before the init (F3)
+        int persist = 0;       // the callback is registered once, a clean init follows, and the judged init is a later one
         std::vector<int> corrupt;
 };
 
@@ -112,6 +113,7 @@ struct StOut {
         int err = 0;
         int used_arch = 0;
         bool crashed = false;
+        bool cb_lost = false; // imb_self_test_get_cb() no longer returns the registered callback after an initialisation
 };
 
 StOut
@@ -129,6 +131,29 @@ run_init(const StCase &c, Mgr &g, bool fresh)
                 g.cfg = c.cfg;
         }
         tc("imb_self_test_set_cb", g.img->imb_self_test_set_cb, g.m, selftest_cb, &st);
+        if (c.persist) {
+                // a first, clean initialisation with the same registration; the callback must stay registered
+                const std::set<int> want = st.corrupt;
+                st.corrupt.clear();
+                if (sigsetjmp(sp_jmp, 1) == 0) {
+                        sp_armed = 1;
+                        if (c.via_auto)
+                                tc("init_mb_mgr_auto", g.img->init_auto, g.m, (IMB_ARCH *) nullptr);
+                        else
+                                tc("init_mb_mgr", g.img->init[cfg_arch(c.cfg)], g.m);
+                        sp_armed = 0;
+                } else
+                        o.crashed = true;
+                st.ev.clear();
+                st.n_corrupt_seen = 0;
+                st.corrupt = want;
+                if (g.img == &g_img) {
+                        imb_self_test_cb_t fn = nullptr;
+                        void *arg = nullptr;
+                        tc("imb_self_test_get_cb", imb_self_test_get_cb, g.m, &fn, &arg);
+                        o.cb_lost = fn != selftest_cb || arg != (void *) &st;
+                }
+        }
         if (sigsetjmp(sp_jmp, 1) == 0) {
                 sp_armed = 1;
                 if (c.via_auto)
@@ -202,6 +227,7 @@ st_case_json(const StCase &c)
         JW w;
         w.obj();
         w.str("special", "C20").num("cfg", c.cfg).str("variant", cfg_name(c.cfg)).num("via_auto", c.via_auto).num("parked", c.parked);
+        w.num("persist", c.persist);
         w.arr("corrupt");
         for (int i : c.corrupt)
                 w.anum(i);
@@ -242,6 +268,8 @@ eval_st(const StCase &c, std::vector<Entry> *entries_out = nullptr)
                 bad("selftest.crash", "initialisation crashed");
                 return v;
         }
+        if (o.cb_lost)
+                bad("selftest.callback_lost", "imb_self_test_get_cb() does not return the registered callback after an initialisation");
         std::vector<Entry> ents;
         std::vector<int> res;
         std::string why;
@@ -638,6 +666,17 @@ check_c20(BatchCfg &cfg)
                                 report_special(cfg, st_case_json(c), eval_st(c), so, known);
                                 so.counters["all_corrupted"]++;
                         }
+                        // the callback registered once must serve later initialisations too: clean, and every single entry
+                        for (int i = -1; i < n; i++) {
+                                if (!th && i >= 0 && (i % 4) != (int) (cfg_i % 4))
+                                        continue; // quick: a quarter of the entries per configuration
+                                StCase c = base;
+                                c.persist = 1;
+                                if (i >= 0)
+                                        c.corrupt = { i };
+                                report_special(cfg, st_case_json(c), eval_st(c), so, known);
+                                so.counters["reinit_with_callback_registered_earlier"]++;
+                        }
                         // F3: corrupted init in the middle of use, jobs parked
                         for (int k = 0; k < (th ? 8 : 2); k++) {
                                 StCase c = base;
@@ -787,6 +826,7 @@ special_replay(const JVal &root, bool verbose)
                 c.cfg = (int) cs->geti("cfg");
                 c.via_auto = (int) cs->geti("via_auto");
                 c.parked = (int) cs->geti("parked");
+                c.persist = (int) cs->geti("persist");
                 if (JP a = cs->get("corrupt"))
                         for (auto &x : a->a)
                                 c.corrupt.push_back((int) x->i);
